@@ -25,7 +25,7 @@ func (eng) Rule() string {
 		"handler names; histories of 6-14 mutations over arbitrary subsets; wide cases: 10-20 states with sparse Require/After relations, all added and then all removed in one mutation each. Each history runs without vetoes, then once per negotiation " +
 		"position (binding, handler name) that fired with a veto there. Per transition the handler log is judged: phase order, " +
 		"After/Require order inside each phase list, negotiation handlers see states-before, final handlers see the applied target, " +
-		"nothing after a veto, every Exit/Enter/self/AnyEnter negotiation handler of an unvetoed accepted transition exactly once in the all-names binding, finals exactly once per changed state per binding and never for canceled transitions. Evaluation = one " +
+		"nothing after a veto, every Exit/Enter/self/AnyEnter negotiation handler of an unvetoed accepted transition exactly once in the all-names binding (in auto transitions: the self handlers of the states that stay in the target), finals exactly once per changed state per binding and never for canceled transitions. Evaluation = one " +
 		"transition with >=1 handler call; distinct non-trivial = distinct (schema, bindings, veto, history prefix)."
 }
 func (eng) Assumptions() []string {
@@ -215,6 +215,48 @@ func run(res *core.CaseResult, spec gen.SchemaSpec, binds []binding, v veto, his
 				}
 			}
 			res.Count("negotiation_sets_checked", 1)
+		}
+		// auto transitions: a self handler vetoing its own Auto state rejects
+		// only that state; the self handlers of the other states that stay in
+		// the target still have to run
+		if tx.IsAuto && tx.Accepted && !tx.Broken && vetoIdx < 0 && len(binds) > 0 && binds[0].prefix == "" {
+			onlySelf := true
+			for _, c := range cs {
+				if rec.IsNegotiation(c.Name) && !c.Ret && !(c.Kind() == "pair" && len(c.Name) == 2 && c.Name[0] == c.Name[1]) {
+					onlySelf = false
+				}
+			}
+			if onlySelf {
+				got := map[string]int{}
+				for _, c := range cs {
+					if c.Binding == 0 {
+						got[c.Name]++
+					}
+				}
+				// (only states every negotiation handler saw in the target: the
+				// re-resolution after the negotiation may bring back states the
+				// handlers saw exiting)
+				seenByAll := func(st string) bool {
+					for _, c := range cs {
+						if rec.IsNegotiation(c.Name) && !slices.Contains(c.Target, st) {
+							return false
+						}
+					}
+					return true
+				}
+				for _, st := range tx.Target {
+					hn := st + st
+					if !slices.Contains(tx.StatesBef, st) || !slices.Contains(binds[0].names, hn) || !seenByAll(st) {
+						continue
+					}
+					if got[hn] != 1 {
+						res.Violate("C05/negotiation-count/self/auto-transition", fmt.Sprintf(
+							"self handler %s of binding 0 ran %d times in an accepted auto transition that kept %s in its target (target %v, active before %v)",
+							hn, got[hn], st, tx.Target, tx.StatesBef), ctx())
+					}
+				}
+				res.Count("auto_self_sets_checked", 1)
+			}
 		}
 		// finals
 		finals := map[string]int{}
